@@ -90,6 +90,12 @@ def gen_case(rng, scale=1):
     # inputs the header pipeline refuses (VcfError -> clean command-line error, no output)
     v["refused"] = "undef-format" if r < 0.04 else "undef-info" if r < 0.08 else "ps-string" if r < 0.12 else None
     o["out_kind"] = rng.choice(["file", "file", "stdout", "gz", "preexisting"])
+    # co-located records (round 7): every kind of record the reader may skip, IN FRONT OF and BEHIND a phasable record at the
+    # same CHROM/POS, with heterozygous calls; --only-snvs (which moves the line between "skipped" and "the variant here"
+    # for indels/MNPs/symbolic alleles) is then as likely as not
+    v["coloc"] = rng.choice([0.0, 0.5, 0.9])
+    if v["coloc"]:
+        o["only_snvs"] = rng.random() < 0.5
     o["bad_sample"] = rng.random() < 0.04
     o["use_ped_samples"] = bool(n_trios) and not o["sample_sel"] and not o["bad_sample"] and rng.random() < 0.3
     return case
@@ -137,6 +143,57 @@ def _info_value(rng, keys, n_alt):
     return ";".join(out) or "."
 
 
+COLOC_KINDS = ("del", "ins", "mnp", "multi", "many", "noalt", "sym", "snv")
+
+
+def coloc_record(rng, kind, r, seq):
+    """site part of a record of `kind` at the position of the real record `r` (what callers emit next to each other
+    when indels are anchored at the preceding base, multi-allelic sites are only partly split, gVCF blocks are kept, ...)"""
+    p = r["pos"]
+    b = seq[p]
+    other = [x for x in "ACGT" if x != b]
+    if kind == "del":
+        n = rng.choice([1, 1, 2, 5])
+        return dict(ref=seq[p:p + 1 + n], alts=[b]) if p + 1 + n < len(seq) else None
+    if kind == "ins":
+        return dict(ref=b, alts=[b + "".join(rng.choice("ACGT") for _ in range(rng.choice([1, 2, 6])))])
+    if kind == "mnp":
+        if p + 2 >= len(seq):
+            return None
+        return dict(ref=seq[p:p + 2], alts=[rng.choice(other) + rng.choice([x for x in "ACGT" if x != seq[p + 1]])])
+    if kind == "multi":
+        # SNV+SNV, SNV+indel or deletion+SNV (REF longer than one base)
+        sh = rng.choice(["snvs", "snv+ins", "del+snv"])
+        if sh == "snvs":
+            return dict(ref=b, alts=rng.sample(other, 2))
+        if sh == "snv+ins":
+            return dict(ref=b, alts=[rng.choice(other), b + "TT"])
+        return dict(ref=seq[p:p + 2], alts=[b, rng.choice(other) + seq[p + 1]]) if p + 2 < len(seq) else None
+    if kind == "many":
+        n_alt = rng.choice([16, 17])
+        return dict(ref=b, alts=[b + "C" * j + "G" for j in range(n_alt)])
+    if kind == "noalt":
+        return dict(ref=rng.choice([b, seq[p:p + 2]]), alts=[])
+    if kind == "sym":
+        return dict(ref=b, alts=[rng.choice(["<DEL>", "<DEL>", "<DUP>", "<INS>"])])
+    if kind == "snv":
+        cand = [x for x in other if [x] != r["alts"]]
+        return dict(ref=b, alts=[rng.choice(cand)])
+    raise ValueError(kind)
+
+
+def coloc_gt(rng, n_alt, het_prob=0.85):
+    """a genotype for a co-located record: mostly heterozygous, every textual form (order, separator)"""
+    if n_alt == 0:
+        return rng.choice(["0/0", "0|0", "./.", "0/0"])
+    if rng.random() < het_prob:
+        a, b = (0, 1) if n_alt == 1 else rng.choice([(0, 1), (0, 2), (1, 2), (0, n_alt)])
+        if rng.random() < 0.4:
+            a, b = b, a
+        return f"{a}{rng.choice(['/', '/', '|'])}{b}"
+    return rng.choice(["1/1", "0/0", "1|1", "./.", "0/.", "."])
+
+
 def build_inputs(case, d):
     sc = PedScenario(random.Random(case["gen_seed"]), **case["params"])
     rng = random.Random(case["gen_seed"] ^ 0xC04)
@@ -149,10 +206,10 @@ def build_inputs(case, d):
     fmt_keys = rng.sample(fmt_pool, min(v["n_fmt"], len(fmt_pool)))
     pre_of = {s: {"none": None, "PS": "PS", "HP": "HP", "per-sample": ["PS", "HP", None][i % 3]}[v["pre"]]
               for i, s in enumerate(sc.samples)}
-    use_ps = any(p == "PS" for p in pre_of.values()) or v["decoys"]
+    use_ps = any(p == "PS" for p in pre_of.values()) or v["decoys"] or bool(v.get("coloc"))
     use_hp = any(p == "HP" for p in pre_of.values())
     keys = ["GT"] + fmt_keys + (["PS"] if use_ps else []) + (["HP"] if use_hp else [])
-    recs = []
+    recs, deck = [], []
 
     def site_extras(n_alt):
         return {"id": rng.choice([".", ".", f"rs{rng.randrange(1000)}"]), "qual": rng.choice([".", "30", "12.5", "100"]),
@@ -195,7 +252,38 @@ def build_inputs(case, d):
                              calls=[other_fields({"GT": rng.choice(["1/2", "0/1", "0/2", "1|2", "./."]),
                                                   "PS": rng.choice(["66", "."]), "HP": "."}, 2) for _ in sc.samples],
                              **site_extras(2)))
+        behind = []
+        if v.get("coloc") and rng.random() < v["coloc"]:
+            # (kind, side) combinations are dealt round-robin from a shuffled deck: one case of ~16 records sees them all
+            # (`coloc_fixed`: hand-written corpus cases name the combinations themselves)
+            if not deck and v.get("coloc_fixed"):
+                deck.extend(map(tuple, reversed(v["coloc_fixed"])))
+            if not deck:
+                deck.extend((k, sd) for k in COLOC_KINDS for sd in ("front", "behind"))
+                rng.shuffle(deck)
+            kind, side = deck.pop()
+            both = [(kind, side)] + ([(rng.choice(COLOC_KINDS), "behind" if side == "front" else "front")] if rng.random() < 0.25 else [])
+            for kind, side in both:
+                site = coloc_record(rng, kind, r, sc.contigs[r["chrom"]])
+                if site is None:
+                    continue
+                n_alt = len(site["alts"])
+                ex = site_extras(n_alt)
+                if site["alts"] and site["alts"][0].startswith("<") and not (v.get("undeclared_info") and rng.random() < 0.5):
+                    ex["info"] = f"END={r['pos'] + 6};SVTYPE={site['alts'][0][1:-1]}" + ("" if ex["info"] == "." else ";" + ex["info"])
+                ccalls = []
+                for _ in sc.samples:
+                    gt = coloc_gt(rng, n_alt, v.get("coloc_het", 0.85))
+                    call = other_fields({"GT": gt}, n_alt)
+                    if "|" in gt and rng.random() < 0.7:
+                        call["PS"] = rng.choice(["44", str(r["pos"] + 1)])
+                    if use_hp and "/" in gt and rng.random() < 0.3:
+                        call["HP"] = rng.choice(["44-1,44-2", "44-2,44-1"])
+                    ccalls.append(call)
+                rec = dict(chrom=r["chrom"], pos=r["pos"], format=keys, calls=ccalls, **site, **ex)
+                (recs if side == "front" else behind).append(rec)
         recs.append(dict(r, calls=calls, format=keys, **site_extras(1)))
+        recs.extend(behind)
         if not v["decoys"]:
             continue
         seq = sc.contigs[r["chrom"]]
@@ -288,7 +376,7 @@ def build_inputs(case, d):
             fmt_defs[k] = ODD_TAG_DEFS[k]
     if refused == "ps-string":
         fmt_defs["PS"] = PS_STRING
-    for k in info_keys + (["END", "SVTYPE"] if any(r["alts"] == ["<DEL>"] for r in recs) and not v.get("undeclared_info") else []):
+    for k in info_keys + (["END", "SVTYPE"] if any(r["alts"] and r["alts"][0].startswith("<") for r in recs) and not v.get("undeclared_info") else []):
         info_defs[k] = INFO_DEFS[k]
     if v.get("undeclared_info"):
         # predefined INFO keys used without a declaration (END/SVTYPE above, AC/AN here): whatshap adds the definitions
